@@ -229,6 +229,11 @@ func (db *DB) isClosed() bool {
 	return atomic.LoadUint32(&db.closed) != 0
 }
 
+// Check whether DB was switched to read-only mode.
+func (db *DB) isReadOnly() bool {
+	return atomic.LoadUint32(&db.readOnly) != 0
+}
+
 // Check read ok status.
 func (db *DB) ok() error {
 	if db.isClosed() {
